@@ -203,6 +203,22 @@ class Upstream:
         if a[0] == "drop":
             self.log("drop", proto=proto, qname=p.qname if p else None)
             return
+        if a[0] == "when":
+            # ("when", predicate, bytes, max_wait): reply once predicate() holds (or after max_wait)
+            pred, data, max_wait = a[1], q[:2] + a[2][2:], a[3]
+
+            def waiter():
+                end = time.monotonic() + max_wait
+                while time.monotonic() < end and not pred() and not self.stop_flag:
+                    time.sleep(0.01)
+                try:
+                    send(data)
+                    self.log("reply", proto=proto, qname=p.qname if p else None, n=len(data), held=True)
+                except OSError as e:
+                    self.log("send-error", proto=proto, err=str(e))
+
+            threading.Thread(target=waiter, daemon=True).start()
+            return
         data = a[1]
         if a[0] == "reply":
             data = q[:2] + data[2:]
